@@ -324,6 +324,18 @@ def check_log(ctx, workload, sch, log, sem, errors, exc, threads, fault, detail)
     # run-level calls never inside another task's block
     rl = [x for x in intruders if x[1] in ("startTestRun", "stopTestRun", "stop", "done", "shouldStop-read")]
     ctx.check(not rl, "runlevel.never-inside-a-block", lambda: {"intruders": rl[:5], **detail()})
+    # ---- a target whose OUTCOME method raised still gets that test's stopTest (so that what the target
+    #      scoped to the test - its tag context - is closed and cannot leak into other workers' tests) ----
+    if fault is not None and sch.fault_at is not None and fault[1] in recorders.OUTCOMES:
+        # (the raising call itself is not in the log: the test is the faulted thread's last startTest)
+        started = [e for e in events[:sch.fault_at] if e.thread == fault[0] and e.name == "startTest"]
+        if started:
+            fe = started[-1]
+            closed = any(e.name == "stopTest" and e.test == fe.test and e.thread == fe.thread
+                         for e in events[sch.fault_at:])
+            ctx.check(closed, "block.contiguous-and-complete",
+                      lambda: {"the target raised in": fault[1], "test": fe.test, "stopTest delivered afterwards": closed,
+                               **detail()})
     # ---- the faulted thread: tests it reports AFTER the fault are delivered with their own start time ----
     if faulted_thread is not None and sch.fault_at is not None:
         t = int(faulted_thread[1:])
